@@ -537,6 +537,10 @@ func registryCloseFromInside(event, transport string, discard bool) (key, msg st
 func TestC04(t *testing.T) {
 	r := rep.New(t, "C04")
 	defer r.Flush()
+	if r.Lane == 1%r.Lanes {
+		// peers that have stopped reading, then the session ends (real time, judged at rest)
+		stalledEndings(r, r.N(4, 64))
+	}
 	// journalled cases that have not ended after a minute of real time are examined (rep.Guard)
 	r.Guard(60 * time.Second)
 	if r.Lane == 3%r.Lanes {
